@@ -136,10 +136,7 @@ def r41(e: Engine, rep: Report):
                     rep.bad('R4.1', f.qname, 'os.open(..., %s)' % flags,
                             'a file is opened for writing directly: not '
                             'atomic with respect to a crash', loc=f.loc(n))
-    ctx = e.method_ctx(AIO, 'dump')
-    g = e.build(ctx, inline=e.inline_same_self(
-        deny=['_write_piece', '_start_keep_awake_thread',
-              '_stop_keep_awake_thread']), max_depth=3)
+    ctx, g = dump_graph(e)
     fx = e.facts(g)
     where = ctx.func.qname
     rep.functions.add(where)
@@ -163,6 +160,16 @@ def r41(e: Engine, rep: Report):
     # names that hold the path mkstemp returned (second element), followed
     # through a helper that returns the pair and through `with ... as (fd,
     # name)` of a context manager that yields it
+    tmpvars = tmp_names(g, mk)
+    before = dataflow.must_events_before(
+        g, lambda n: ['mkstemp'] if n in mk else (
+            ['write'] if n in wr else []))
+    _r41_rest(e, rep, g, fx, where, mk, wr, rn, tmpvars, before)
+
+
+def tmp_names(g, mk):
+    """paths (frame-qualified) of the names that hold the file name a
+    unique-name maker returned"""
     tmpvars = set()
     changed = True
     while changed:
@@ -188,9 +195,17 @@ def r41(e: Engine, rep: Report):
                         if q and q not in tmpvars:
                             tmpvars.add(q)
                             changed = True
-    before = dataflow.must_events_before(
-        g, lambda n: ['mkstemp'] if n in mk else (
-            ['write'] if n in wr else []))
+    return tmpvars
+
+
+def dump_graph(e):
+    ctx = e.method_ctx(AIO, 'dump')
+    return ctx, e.build(ctx, inline=e.inline_same_self(
+        deny=['_write_piece', '_start_keep_awake_thread',
+              '_stop_keep_awake_thread']), max_depth=3)
+
+
+def _r41_rest(e, rep, g, fx, where, mk, wr, rn, tmpvars, before):
     for n in rn:
         rep.evaluations += 1
         st = before.get(n.id) or ()
